@@ -16,6 +16,7 @@ type omap struct {
 	idx   map[value]int // for concrete, Go-hashable keys
 	plain bool          // keys are basic/pointer typed (Go-hashable when concrete)
 	nsym  int           // number of stored keys that are symbolic
+	perm  []int         // iteration order chosen for this map under map-order nondeterminism
 }
 
 func newOmap(kt types.Type) *omap {
@@ -111,6 +112,13 @@ func (m *omap) order(p *Path) []int {
 	if !p.mapNondet || n < 2 {
 		return ord
 	}
+	// One arbitrary order per map object and size (Go re-randomises every
+	// range statement; choosing again for every range of the same map would
+	// multiply the paths by n! per loop iteration - stated bound).
+	if len(m.perm) == n {
+		return append([]int{}, m.perm...)
+	}
+	defer func() { m.perm = append([]int{}, ord...) }()
 	if n <= 4 {
 		// every permutation: choose successively
 		rest := append([]int{}, ord...)
@@ -121,7 +129,8 @@ func (m *omap) order(p *Path) []int {
 			rest = append(rest[:c:c], rest[c+1:]...)
 		}
 		out = append(out, rest[0])
-		return out
+		ord = out
+		return ord
 	}
 	// larger maps: identity, reverse, and rotations by 1 and n/2
 	switch p.choice(4) {
